@@ -1,6 +1,10 @@
-/- line-protocol driver for C06: `drv_c06 <sub-command>` reads operations on stdin, prints one canonical line per operation.
+/- line-protocol driver for C06: `drv_c06 callconv` (see Driver/CallConvCmd.lean).
    Core Lean only (nothing imported here may import Mathlib, or the executable will not link). -/
+import ChibiVerif.Driver.CallConvCmd
 
 def main (args : List String) : IO UInt32 := do
-  IO.eprintln s!"drv_c06: no sub-commands yet (args {args})"
-  return 2
+  match args with
+  | "callconv" :: _ => ChibiVerif.Driver.CallConvCmd.main
+  | _ =>
+    IO.eprintln "usage: drv_c06 callconv"
+    return 2
